@@ -268,8 +268,39 @@ def runVqSched (toks : List String) : String :=
   | none => "schedule-not-enabled"
   | some s => "[" ++ ",".intercalate (s.returned.map fun o => showOut o.1) ++ "]"
 
+/-- `vq clones <pairs>`: two sender clones schedule `pairs` pairs of timers that fall on the same
+instant (same duration, same clock reading); one of each fourth pair is cancelled through its own id.
+The model is run on min(pairs, 12) pairs: keys must be pairwise distinct (`keys_unique`,
+`same_instant_distinct`), a cancel removes exactly its own event (`cancel_isolated`), everything else is
+returned exactly once. -/
+def runVqClones (pairs : Nat) : String :=
+  let n := min pairs 12
+  let acts : List (Act Nat) := (List.range n).flatMap fun i => [.sendTimer 5 (2 * i), .sendTimer 5 (2 * i + 1)]
+  match acts.foldlM (fun (s : St Nat) a => step s a) ({} : St Nat) with
+  | none => "schedule-not-enabled"
+  | some s =>
+    let keys := s.created.map (·.key)
+    let dupIds := keys.length - keys.eraseDups.length
+    -- cancel the first timer of every fourth pair
+    let cancels : List (Act Nat) := (List.range n).filterMap fun i =>
+      if i % 4 = 0 then (s.created[2 * i]?).map (fun c => .cancel c.key) else none
+    let drain : List (Act Nat) := [.tick 10] ++ (List.replicate (2 * n + 2) [.call .tryRecv 0, .readClock, .foldPick]).flatten
+    match (cancels ++ drain).foldlM (fun (s : St Nat) a => step s a) s with
+    | none => "schedule-not-enabled"
+    | some s' =>
+      let got : List Nat := s'.returned.filterMap fun o => match o.1 with
+        | .timer _ e => some e
+        | _ => none
+      let expectCancelled := (List.range n).filter (· % 4 = 0) |>.map (2 * ·)
+      let lost := ((List.range (2 * n)).filter fun e => !expectCancelled.contains e && !got.contains e).length
+      let cross := (got.filter fun e => expectCancelled.contains e).length
+      s!"dup_ids={dupIds} lost={lost} cross_cancel={cross}"
+
 def runVq2 (ws : List String) : String :=
   match ws with
+  | ["clones", p] => match p.toNat? with
+    | some p => runVqClones p
+    | none => "bad-case"
   | "seq" :: toks => runVqSeq toks
   | "conc" :: toks => runVqConc toks
   | "hist" :: toks => runVqHist toks
